@@ -145,7 +145,7 @@ NamesFresh == Cardinality(made) = Cardinality({q \in Positions : out[q[1]][q[2]]
 
 AJ(m) == [i \in 1..6 |-> [n |-> m[i][1], d |-> m[i][2]]]
 Export == Done =>
-    PrintT(<<"VERIF", ToJson([reuse |-> reuse,
+    PrintT(<<"VERIF", ToJson([reuse |-> reuse, fallbacks |-> [c \in Classes |-> misses[c]],
         src |-> [g \in DOMAIN src |-> [i \in DOMAIN src[g] |->
                     [c |-> src[g][i].c, p |-> AJ(src[g][i].p), f |-> src[g][i].f]]],
         out |-> [g \in DOMAIN out |-> [i \in DOMAIN out[g] |->
